@@ -390,12 +390,16 @@ def _s_generation_failure(ctx):
         raise Abstain("the Deferred of writeTo is not bound to a local name")
     D = wst.targets[0].id
     nested = {n.name: n for n in f.body if isinstance(n, ast.FunctionDef)}
+    from sa.source import methods as _methods_of
+    pmethods = _methods_of(ctx.cls(P, "HTTP11ClientProtocol"))
     regs = [(n, c) for n, c in call_sites(g, lambda c: call_attr(c) in ("addCallbacks", "addErrback", "addBoth") and src(c.func.value) == D)]
     ebs = []
     for n, c in regs:
         a = c.args[1] if call_attr(c) == "addCallbacks" and len(c.args) > 1 else (c.args[0] if call_attr(c) != "addCallbacks" and c.args else None)
         if isinstance(a, ast.Name) and a.id in nested:
             ebs.append((n, nested[a.id]))
+        elif isinstance(a, ast.Attribute) and src(a.value) == "self" and a.attr in pmethods:          # the errback extracted into a method
+            ebs.append((n, pmethods[a.attr]))
     if len(ebs) != 1:
         raise Abstain(f"{len(ebs)} errbacks registered on the Deferred of writeTo")
     reg_n, eb = ebs[0]
